@@ -13,9 +13,9 @@ def Op.safe (impl : Impl) : Op → Bool
   | .layerSet l _ _ => impl != .new || l != 0
   | .setCells l _ _ => impl != .new || l != 0
   | .setFrom l _ _ => impl != .new || l != 0
-  | .modifyCells l _ _ => impl != .new || l != 0
+  | .modifyCells l _ _ _ => impl != .new || l != 0
   | .modifyT l _ _ _ => impl != .new || l != 0
-  | .modifyU l _ _ _ => impl != .new || l != 0
+  | .modifyU l _ _ _ _ => impl != .new || l != 0
   | .modifyCell l _ _ => impl != .new || l != 0
   | .modifyCellU l _ _ _ => impl != .new || l != 0
   | .grab _ l => impl != .new || l != 0
@@ -520,9 +520,10 @@ theorem EmpInv_step {s : State} (hw : WF s) (h : EmpInv s) (op : Op) (hs : op.sa
   | setCells l w cond =>
     have hl0 : s.impl = .new → l ≠ 0 := fun hi => by simpa [Op.safe, hi] using hs
     cases w with
-    | raw v => exact EmpInv_setCells hw h l v cond hl0
+    | raw v => exact vecGuard_fst (P := EmpInv) _ _ _ _ (EmpInv_setCells hw h l v cond hl0) h
     | py x =>
       simp only [step]
+      refine vecGuard_fst (P := EmpInv) _ _ _ _ ?_ h
       unfold setCellsV
       split
       · exact h
@@ -542,22 +543,27 @@ theorem EmpInv_step {s : State} (hw : WF s) (h : EmpInv s) (op : Op) (hs : op.sa
         · exact h
         · split
           · exact h
-          · refine h.transfer rfl (fun _ => rfl) (fun _ => rfl) (Nat.le_refl _) h.handles rfl
-              (upd_heap_zero _ _ _ (data_ne_zero hw h hlt ?_))
-            intro hi
-            simpa [Op.safe, hi] using hs
+          · split
+            · exact h
+            · refine h.transfer rfl (fun _ => rfl) (fun _ => rfl) (Nat.le_refl _) h.handles rfl
+                (upd_heap_zero _ _ _ (data_ne_zero hw h hlt ?_))
+              intro hi
+              simpa [Op.safe, hi] using hs
   | modifyT l f cond rd =>
-    exact EmpInv_modifyCellsT hw h l f cond rd (fun hi => by simpa [Op.safe, hi] using hs)
-  | modifyU l op x cond =>
+    exact vecGuard_fst (P := EmpInv) _ _ _ _
+      (EmpInv_modifyCellsT hw h l f cond rd (fun hi => by simpa [Op.safe, hi] using hs)) h
+  | modifyU l vec op x cond =>
     simp only [step]
+    refine vecGuard_fst (P := EmpInv) _ _ _ _ ?_ h
     unfold modifyU
     split
     · exact h
     · split
       · exact h
       · exact EmpInv_modifyCellsT hw h l _ cond _ (fun hi => by simpa [Op.safe, hi] using hs)
-  | modifyCells l f cond =>
+  | modifyCells l vec f cond =>
     simp only [step]
+    refine vecGuard_fst (P := EmpInv) _ _ _ _ ?_ h
     unfold modifyCells
     split
     · exact h
@@ -695,21 +701,27 @@ theorem step_impl (s : State) (op : Op) : (step s op).1.impl = s.impl := by
   | cellGet2 l c => rfl
   | setCells l w cond =>
     cases w with
-    | raw v => exact (sameShape_setCells ..).impl
-    | py x => exact (sameShape_setCellsV ..).impl
+    | raw v => exact vecGuard_fst (P := fun t => t.impl = s.impl) _ _ _ _ (sameShape_setCells ..).impl rfl
+    | py x => exact vecGuard_fst (P := fun t => t.impl = s.impl) _ _ _ _ (sameShape_setCellsV ..).impl rfl
   | setFrom l hd cond => exact (sameShape_setFrom ..).impl
-  | modifyCells l f cond =>
-    simp only [step]; unfold modifyCells
+  | modifyCells l vec f cond =>
+    simp only [step]
+    refine vecGuard_fst (P := fun t => t.impl = s.impl) _ _ _ _ ?_ rfl
+    unfold modifyCells
     split
     · rfl
     · split <;> rfl
   | modifyT l f cond rd =>
-    simp only [step]; unfold modifyCellsT
+    simp only [step]
+    refine vecGuard_fst (P := fun t => t.impl = s.impl) _ _ _ _ ?_ rfl
+    unfold modifyCellsT
     split
     · rfl
     · split <;> rfl
-  | modifyU l op x cond =>
-    simp only [step]; unfold modifyU
+  | modifyU l vec op x cond =>
+    simp only [step]
+    refine vecGuard_fst (P := fun t => t.impl = s.impl) _ _ _ _ ?_ rfl
+    unfold modifyU
     split
     · rfl
     · split
